@@ -169,6 +169,8 @@ def tree_case(ctx, n, items, ybits, prune_p, base, tag, canonical=False, force=N
                      'ok ' + rc.hash.hex() + ' ' + (';'.join(f'{k}={leaf_tok(b, r, cells)}' for k, b, r in leaves) or '-'), tag)
     want_bits = ';'.join(f'{k}={leaf_tok(b, r, cells)}' for k, b, r in leaves) or '-'
     want_int = ';'.join(f'{int(k, 2)}={leaf_tok(b, r, cells)}' for k, b, r in leaves) or '-'
+    root_pruned = bool(t.get('pruned'))
+    want_api = 'none' if root_pruned else want_int       # HashMap.parse / parse_hashmap_aug return None for a non-ordinary root
 
     dag2 = dag + f'|-1,1,{root}'
     cnode = len(db.nodes)
@@ -190,15 +192,15 @@ def tree_case(ctx, n, items, ybits, prune_p, base, tag, canonical=False, force=N
         cont = Builder().store_bit(1).store_ref(rc).end_cell()
         ok = check('parse_hashmap', lambda: parse_hashmap(rc.begin_parse(), n),
                    lambda d: ';'.join(f'{k}={slice_tok(v)}' for k, v in d.items()) or '-', want_bits, 'p')
-        ok = ok and check('HashMap.parse', lambda: HashMap.parse(rc.begin_parse(), n), C09.show_dict, want_int, 'h')
+        ok = ok and check('HashMap.parse', lambda: HashMap.parse(rc.begin_parse(), n), C09.show_dict, want_api, 'h')
         ok = ok and check('from_cell', lambda: HashMap.from_cell(rc, n).map, C09.show_dict, want_int, 'f')
-        ok = ok and check('load_hashmap', lambda: rc.begin_parse().load_hashmap(n), C09.show_dict, want_int, 'h')
-        ok = ok and check('load_dict', lambda: cont.begin_parse().load_dict(n), C09.show_dict, want_int, 'ld', cnode, dag2)
-        ok = ok and check('preload_dict', lambda: cont.begin_parse().preload_dict(n), C09.show_dict, want_int, 'ld', cnode, dag2)
+        ok = ok and check('load_hashmap', lambda: rc.begin_parse().load_hashmap(n), C09.show_dict, want_api, 'h')
+        ok = ok and check('load_dict', lambda: cont.begin_parse().load_dict(n), C09.show_dict, want_api, 'ld', cnode, dag2)
+        ok = ok and check('preload_dict', lambda: cont.begin_parse().preload_dict(n), C09.show_dict, want_api, 'ld', cnode, dag2)
     else:
         y = lambda s: s.load_uint(ybits)
         x = lambda s: slice_tok(s)
-        want = want_int + ' ' + ('.'.join(map(str, extras)) or '-')
+        want = 'none' if root_pruned else want_int + ' ' + ('.'.join(map(str, extras)) or '-')
 
         def render(res):
             if res is None:
@@ -253,6 +255,10 @@ def tree_cases(ctx):
                         f = f['l']
                     f[side]['pruned'] = True
                 tree_case(ctx, n, items, ybits, 0.0, (), f'prune-last:{n}:{side}', force=force)
+    for n in (1, 8, 267):
+        for ybits in (0, 4):
+            items = [(M.key_bits(k, n), ('11', [])) for k in sorted({0, 1, (1 << n) - 1})]
+            tree_case(ctx, n, items, ybits, 0.0, (), f'prune-root:{n}', force=lambda t: t.__setitem__('pruned', True))
     for t in range(ctx.n(500, 5000)):
         n = rng.choice([1, 2, 3, 4, 5, 8, 16, 32]) if rng.random() < 0.6 else M.rand_width(rng)
         items = rand_items(rng, n, len(base))
